@@ -935,6 +935,28 @@ done:
 	return res;
 }
 
+/* the leaves of a masked block with meta-data only (no signing): few allocations, so every index is taken in both tiers */
+static int run_block_leaves(int k) {
+	KSI_BlockSigner *bs = NULL;
+	KSI_BlockSignerHandle *h[4] = {NULL, NULL, NULL, NULL};
+	KSI_DataHash *prev = NULL;
+	int res, i;
+	(void)k;
+	CK(KSI_BlockSigner_new(G.ctx, KSI_HASHALG_SHA2_256, G.dh[3], G.os, &bs));
+	CK(KSI_BlockSigner_addLeaf(bs, G.dh[0], 0, NULL, &h[0]));
+	CK(KSI_BlockSigner_addLeaf(bs, G.dh[1], 0, G.md, &h[1]));
+	CK(KSI_BlockSigner_addLeaf(bs, G.dh[2], 0, NULL, &h[2]));
+	CK(KSI_BlockSigner_addLeaf(bs, G.dh[0], 0, G.md, &h[3]));
+	CK(KSI_BlockSigner_getPrevLeaf(bs, &prev));
+done:
+	fault_off();
+	if (res == KSI_OK) out_hash(prev);
+	KSI_DataHash_free(prev);
+	for (i = 0; i < 4; i++) KSI_BlockSignerHandle_free(h[i]);
+	KSI_BlockSigner_free(bs);
+	return res;
+}
+
 /* ---- asynchronous service. k bit 0: HTTP instead of TCP; bit 1: the service is a setup object that survives the failed call;
  * bit 2: high availability service with two endpoints (TCP + HTTP); bit 3: extending instead of signing */
 static void su_async(int k) {
@@ -1356,6 +1378,7 @@ static const op_t OPS[] = {
 	{"builder-from-parts-retry-close", su_builder, run_builder, 3},
 	{"block-signer", su_block, run_block, 0},
 	{"block-signer-masked", su_block, run_block, 1},
+	{"block-signer-masked-leaves-only", su_block, run_block_leaves, 1},
 	{"async-sign-tcp", su_async, run_async, 0},
 	{"async-sign-http", su_async, run_async, 1},
 	{"async-sign-tcp-kept-service", su_async, run_async, 2},
